@@ -141,3 +141,31 @@ def extra_probes(ctx, ver, strings, label):
                       replay_of=lambda s: {"op": "scores", "ver": ver, "s": s, "threads": 4})
     ops = [["S", ver, s] for s in small[:: max(1, len(small) // 160)] if core.sendable(s)]
     conc.cold_start(ctx, ops, "v%s" % ver, runs=ctx.n(3, 12))
+    # interpreter options that must not matter (-O, -OO, PYTHONOPTIMIZE), objects pickled across processes with other hash seeds
+    conc.flag_variants(ctx, ops, "v%s" % ver)
+    conc.pickle_across(ctx, [(ver, op[2]) for op in ops[:: max(1, len(ops) // 60)]], "v%s" % ver)
+    # construction at every remaining stack depth near the recursion limit: a RecursionError may escape, a silently different
+    # score may not
+    import sys as _sys
+    lim = _sys.getrecursionlimit()
+
+    def at_depth(d, s):
+        if d > 0:
+            return at_depth(d - 1, s)
+        o = core.build(ver, s, variant=0)          # a RecursionError propagates to the sweep below
+        return "ok\t" + core.obs_field(ver, o, "s")
+    for s in [op[2] for op in ops[:: max(1, len(ops) // 6)]][:6]:
+        ref = core.impl_construct(ver, "s", s)
+        base_depth = len(__import__("inspect").stack(0))
+        for d in range(max(0, lim - base_depth - 90), lim - base_depth + 5):
+            try:
+                got = at_depth(d, s)
+            except RecursionError:
+                continue
+            except Exception as ex:  # noqa  (an error of the hierarchy wrapping the RecursionError is not a silent wrong score)
+                continue
+            ctx.count()
+            if got != ref:
+                ctx.violation("v%s:score-differs-near-the-recursion-limit" % ver, "constructed %d frames below the recursion limit the scores differ silently" % (lim - base_depth - d),
+                              s, ref, got, replay={"op": "scores", "ver": ver, "s": s})
+                break
